@@ -164,7 +164,8 @@ def median_filter(f, Bc=None, mode='reflect', cval=0.0, out=None, output=None):
         Bc = Bc.astype(f.dtype)
     if f.ndim != Bc.ndim:
         raise ValueError('mahotas.median_filter: `f` and `Bc` must have the same number of dimensions')
-    rank = Bc.sum()//2
+    # the median of the selected samples: members of the neighbourhood are the non-zero entries, whatever their value
+    rank = np.count_nonzero(Bc)//2
     output = _get_output(f, out, 'median_filter', output=output)
     _check_mode(mode, cval, 'median_filter')
     return _convolve.rank_filter(f, Bc, output, int(rank), mode2int[mode])
